@@ -3,6 +3,7 @@ package checks
 import (
 	"go/ast"
 	"go/constant"
+	"go/token"
 	"go/types"
 	"sort"
 	"strings"
@@ -229,7 +230,7 @@ func cliCommands(p *core.Program) []cliCommand {
 						if !isCall {
 							break
 						}
-						fn, _ := typeutil.Callee(pk.TypesInfo, call).(*types.Func)
+						fn, _ := flow.Callee(pk.TypesInfo, call).(*types.Func)
 						if fn == nil || fn.Pkg() != pk.Types {
 							break
 						}
@@ -322,7 +323,7 @@ func servingUnit(ix *funcIndex, c cliCommand, target *types.Func) (flow.FuncUnit
 				return false
 			}
 			if call, ok := n.(*ast.CallExpr); ok {
-				if fn, _ := typeutil.Callee(info, call).(*types.Func); fn != nil && fn.Origin() == target {
+				if fn, _ := flow.Callee(info, call).(*types.Func); fn != nil && fn.Origin() == target {
 					out = call
 				}
 			}
@@ -350,7 +351,7 @@ func servingUnit(ix *funcIndex, c cliCommand, target *types.Func) (flow.FuncUnit
 			obj := u.Pkg.TypesInfo.Defs[fd.Name]
 			ast.Inspect(c.Action.Node, func(n ast.Node) bool {
 				if cc, ok := n.(*ast.CallExpr); ok {
-					if fn, _ := typeutil.Callee(c.Pkg.TypesInfo, cc).(*types.Func); fn != nil && types.Object(fn) == obj {
+					if fn, _ := flow.Callee(c.Pkg.TypesInfo, cc).(*types.Func); fn != nil && types.Object(fn) == obj {
 						via = cc
 					}
 				}
@@ -513,4 +514,88 @@ func serverRunFn(p *core.Program) *ssa.Function {
 		fn = t
 	}
 	return fn
+}
+
+// PrepareSeams computes the repository's seam variables (see flow.SetSeams) from the loaded packages.
+func PrepareSeams(p *core.Program) {
+	cand := map[*types.Var]types.Object{}
+	written := map[*types.Var]bool{}
+	pkgs := p.Pkgs
+	for _, pk := range pkgs {
+		info := pk.TypesInfo
+		for _, f := range pk.Syntax {
+			for _, d := range f.Decls {
+				gd, ok := d.(*ast.GenDecl)
+				if !ok {
+					continue
+				}
+				for _, sp := range gd.Specs {
+					vs, ok := sp.(*ast.ValueSpec)
+					if !ok || len(vs.Values) != len(vs.Names) {
+						continue
+					}
+					for i, nm := range vs.Names {
+						v, _ := info.Defs[nm].(*types.Var)
+						if v == nil || v.Parent() != pk.Types.Scope() {
+							continue
+						}
+						var id *ast.Ident
+						switch x := ast.Unparen(vs.Values[i]).(type) {
+						case *ast.Ident:
+							id = x
+						case *ast.SelectorExpr:
+							id = x.Sel
+						}
+						if id == nil {
+							continue
+						}
+						switch t := info.Uses[id].(type) {
+						case *types.Func:
+							cand[v] = t
+						case *types.Var:
+							if t.Pkg() != nil && t.Pkg() != pk.Types && t.Parent() == t.Pkg().Scope() {
+								cand[v] = t
+							}
+						}
+					}
+				}
+			}
+			ast.Inspect(f, func(n ast.Node) bool {
+				mark := func(e ast.Expr) {
+					var id *ast.Ident
+					switch x := ast.Unparen(e).(type) {
+					case *ast.Ident:
+						id = x
+					case *ast.SelectorExpr:
+						id = x.Sel
+					}
+					if id != nil {
+						if v, ok := info.Uses[id].(*types.Var); ok {
+							written[v] = true
+						}
+					}
+				}
+				switch x := n.(type) {
+				case *ast.AssignStmt:
+					for _, l := range x.Lhs {
+						mark(l)
+					}
+				case *ast.IncDecStmt:
+					mark(x.X)
+				case *ast.UnaryExpr:
+					if x.Op == token.AND {
+						mark(x.X)
+					}
+				}
+				return true
+			})
+		}
+	}
+	out := map[*types.Var]types.Object{}
+	for v, t := range cand {
+		if !written[v] {
+			out[v] = t
+		}
+	}
+	flow.SetSeams(out)
 }
